@@ -1262,7 +1262,11 @@ pub fn plan(prop: &str, tier: &str) -> Vec<BatchPlan> {
         "C10" => vec![mk("c10-forkjoin", 40_000, 2_500_000, false)],
         "C07" => vec![mk("c07-gas", 12_000, 600_000, true)],
         "C11" => vec![mk("c11-read", 120_000, 8_000_000, false)],
-        "C05" => vec![mk("c05-total", 200_000, 12_000_000, false)],
+        "C05" => vec![
+            // closed set: every op x every triple of boundary operands (61 x 16^3)
+            mk("c05-enum3", 249_856, 249_856, false),
+            mk("c05-total", 150_000, 12_000_000, false),
+        ],
         _ => vec![],
     }
 }
@@ -1309,6 +1313,30 @@ pub fn scenario_for(batch: &str, run_seed: u64) -> Option<VmScenario> {
             };
             let then_as = if wl.chance(1, 4) { Some(1) } else { None };
             VmScenario::Read { case, spec, then_as }
+        }
+        "c05-enum3" => {
+            let case_ix = crate::c06::CASE_INDEX.with(|c| c.get());
+            let all = all_nullary();
+            let op = all[(case_ix / 4096) as usize % all.len()];
+            let (a, b, c) = (
+                BOUNDARY[(case_ix % 16) as usize],
+                BOUNDARY[((case_ix / 16) % 16) as usize],
+                BOUNDARY[((case_ix / 256) % 16) as usize],
+            );
+            let mut case = base_case(&mut wl);
+            case.program = to_bytes(&[PUSH(c), PUSH(b), PUSH(a), op]);
+            case.init_stack = vec![7, 7, 7, 7];
+            case.init_memory = (0..8).collect();
+            case.solutions = vec![vec![vec![1, 2, 3], vec![]], vec![vec![9]]];
+            for i in 0..4 {
+                case.pre.push((case.contract, vec![i], vec![i; (i as usize) % 3]));
+            }
+            case.shape = format!("enum3 {op:?} {a} {b} {c}");
+            VmScenario::Total {
+                case,
+                spec: SchedSpec::sequential(),
+                calls: 1,
+            }
         }
         "c05-total" => {
             let (case, calls) = gen_total(&mut wl);
@@ -1370,6 +1398,7 @@ pub fn run_case(_prop: &str, batch: &str, run_seed: u64) -> CaseOut {
                 .push(derive(out.shape_hash, &[i.event_hash, i.order_hash, ev.outcome_hash]));
         }
     }
+    out.own_nontrivial_rule = true;
     out.infos = ev.infos;
     for (k, v) in ev.notes {
         *out.notes.entry(k.to_string()).or_default() += v;
